@@ -234,7 +234,8 @@ tpt_msg_one_by_one_proxy_cb(tpt_p tpt, void *udata) {
 		return;
 	/* All except caller thread done / error. */
 	if (0 == ((TP_BMSG_F_SELF_SKIP | TP_MSG_F_SELF_DIRECT) & msg_data->flags) &&
-	    msg_data->tpt != tpt) { /* Try shedule caller thread. */
+	    msg_data->tpt != tpt &&
+	    tpt_get_tp(msg_data->tpt) == tpt_get_tp(tpt)) { /* Try shedule caller thread. */
 		msg_data->cur_thr_idx = tp_thread_count_max_get(tpt_get_tp(tpt));
 		msg_data->send_msg_cnt ++;
 		if (0 == tpt_msg_send(msg_data->tpt, tpt,
@@ -501,6 +502,7 @@ tpt_msg_cbsend(tp_p tp, tpt_p src, uint32_t flags,
     tpt_msg_cb msg_cb, void *udata, tpt_msg_done_cb done_cb) {
 	size_t tm_cnt, send_msg_cnt, threads_max;
 	tpt_msg_data_p msg_data;
+	tpt_p self;
 
 	if (NULL == tp || NULL == msg_cb || NULL == done_cb ||
 	    0 != ((TP_BMSG_F_SYNC | TP_BMSG_F_SYNC_USLEEP) & flags))
@@ -510,10 +512,12 @@ tpt_msg_cbsend(tp_p tp, tpt_p src, uint32_t flags,
 	}
 	if (NULL == src) /* Cant do final callback. */
 		return (EINVAL);
+	/* Thread of other thread pool: gets done_cb(), but is not one of receivers. */
+	self = ((tp == tpt_get_tp(src)) ? src : NULL);
 	threads_max = tp_thread_count_max_get(tp);
 	/* 1 thread specific. */
 	if (1 == threads_max &&
-	    NULL != src) { /* Only if thread send broadcast to self. */
+	    NULL != self) { /* Only if thread send broadcast to self. */
 		if (0 != (TP_BMSG_F_SELF_SKIP & flags)) {
 			done_cb(src, 0, 0, udata); /* Nothink to do. */
 		} else { /* Cant async call from self. */
@@ -533,14 +537,16 @@ tpt_msg_cbsend(tp_p tp, tpt_p src, uint32_t flags,
 	msg_data->done_cb = done_cb;
 
 	if (0 != (TP_CBMSG_F_ONE_BY_ONE & flags)) {
-		if (TP_MSG_F_SELF_DIRECT == ((TP_BMSG_F_SELF_SKIP | TP_MSG_F_SELF_DIRECT) & flags)) {
+		if (NULL != self &&
+		    TP_MSG_F_SELF_DIRECT == ((TP_BMSG_F_SELF_SKIP | TP_MSG_F_SELF_DIRECT) & flags)) {
 			msg_data->send_msg_cnt ++;
 			msg_cb(src, udata);
 		}
 		if (0 == tpt_msg_one_by_one_send_next__int(tp, src, msg_data))
 			return (0); /* OK, sheduled. */
 		/* No other thread accept message. */
-		if (0 == ((TP_BMSG_F_SELF_SKIP | TP_MSG_F_SELF_DIRECT) & flags)) {
+		if (NULL != self &&
+		    0 == ((TP_BMSG_F_SELF_SKIP | TP_MSG_F_SELF_DIRECT) & flags)) {
 			/* Try shedule caller thread, like tpt_msg_one_by_one_proxy_cb(). */
 			msg_data->cur_thr_idx = threads_max;
 			msg_data->send_msg_cnt ++;
@@ -562,7 +568,7 @@ tpt_msg_cbsend(tp_p tp, tpt_p src, uint32_t flags,
 	/* Like SYNC but with cb. */
 	MTX_INIT(&msg_data->lock);
 
-	tm_cnt = tpt_msg_broadcast_send__int(tp, src, msg_data, flags,
+	tm_cnt = tpt_msg_broadcast_send__int(tp, self, msg_data, flags,
 	    tpt_msg_sync_proxy_cb, msg_data, &msg_data->send_msg_cnt,
 	    &msg_data->error_cnt);
 	if (0 == tm_cnt)
